@@ -23,12 +23,19 @@ STREAM_KINDS = {
     "xdma-rescale-up": ("snax_xdma", "i8", "i32", RESCALE.format(i="i8", o="i32")),
     "xdma-rescale-down": ("snax_xdma", "i32", "i8", RESCALE.format(i="i32", o="i8")),
     "alu-add": ("snax_alu", "i32", "i32", "kernel.add %x, %x : i32, i32 -> i32"),
+    "xdma-plain": ("snax_xdma", "i32", "i32", None),  # all extensions bypassed: a plain transfer without a kernel
 }
 
 
 def stream_text(s):
     acc, it, ot, kern = STREAM_KINDS[s["kind"]]
     src, dst = ("%e0" if it == "i32" else "%f0"), ("%e1" if ot == "i32" else "%f1")
+    if kern is None:
+        return (
+            f'"dart.operation"({src}, {dst}) <{{patterns = [affine_map<(d0) -> (d0)>, affine_map<(d0) -> (d0)>], accelerator = "{acc}", operandSegmentSizes = array<i32: 1, 1>}}> ({{\n'
+            f"^bb0(%si : !dart.stream<{it}>, %so : !dart.stream<{ot}>):\n  dart.yield %si : !dart.stream<{it}>\n"
+            f'}}) {{vtag = {s["tag"]} : i64}} : (memref<8x{it}, "L1">, memref<8x{ot}, "L1">) -> ()'
+        )
     return (
         f'"dart.operation"({src}, {dst}) <{{patterns = [affine_map<(d0) -> (d0)>, affine_map<(d0) -> (d0)>], accelerator = "{acc}", operandSegmentSizes = array<i32: 1, 1>}}> ({{\n'
         f"^bb0(%si : !dart.stream<{it}>, %so : !dart.stream<{ot}>):\n"
@@ -126,7 +133,7 @@ class BufGen:
         if k == "for":
             self.n += 1
             iv = f"%i{self.n}"
-            node = {"k": "for", "iv": iv, "lb": "%c0", "ub": r.choice(["%n0", "%n1", "%n2"]), "step": "%c1"}
+            node = {"k": "for", "iv": iv, "lb": "%c0", "ub": r.choice(["%n0", "%n1", "%n2", "%n0", "%n1", "%c1", "%c2"]), "step": "%c1"}
             node["body"] = self.stmts(r.randint(1, 3), depth + 1, ivs + [iv], True)
             return node
         node = {"k": "if", "cond": r.choice(["%p0", "%p1"])}
